@@ -1,13 +1,13 @@
 #!/bin/bash
 # seed_import2.sh <srcdir> : round-2 import -> /verif/seeded/<Cxx>-r2mN/
-SRC="$1"; ID="$(basename "$(dirname "$SRC")")-r2$(basename "$SRC")"
+SRC="$1"; ID="$(basename "$(dirname "$SRC")")-r${ROUND:-2}$(basename "$SRC")"
 DST=/verif/seeded/$ID; mkdir -p "$DST/demo"
 cp "$SRC/patch.rebased.diff" "$DST/patch.diff"; cp "$SRC"/demo/* "$DST/demo/"; cp "$SRC/meta.json" "$DST/meta.json"
 python3 - "$DST/meta.json" <<'PY'
 import json,sys
 p=sys.argv[1]; m=json.load(open(p))
 m.setdefault('confirmed_by','tools/seed_verify.sh: scratch worktree of /repo HEAD; patch applies, go build ./... ok, go test -vet=off -count=1 ./... all ok with the patch, demo_cmd fails with the patch and passes without it')
-m['breaks_property']=m.get('property'); m['round']=2
+m['breaks_property']=m.get('property'); m["round"]=int(__import__("os").environ.get("ROUND","2"))
 json.dump(m,open(p,'w'),indent=1)
 PY
 echo "$ID"
